@@ -32,5 +32,13 @@ type Void struct{}
 
 // NewHost creates a new extension host.
 func NewHost() *Host {
-	return &Host{Events: &Events{}}
+	events := &Events{}
+
+	// One dispatcher for all after-events, so that a listener registered under the same name for
+	// several of them sees e.g. a message stored before it is deleted.
+	dispatcher := &asyncDispatcher{}
+	events.AfterMessageDeleted.dispatcher = dispatcher
+	events.AfterMessageStored.dispatcher = dispatcher
+
+	return &Host{Events: events}
 }
